@@ -2,6 +2,9 @@ SPECIFICATION Spec
 CONSTANTS
   Thorough = FALSE
   Dev_h41 = FALSE
+  Dev_gmt = FALSE
+  Dev_y10k = FALSE
   Emit = TRUE
-INVARIANTS CalendarOk RoundTrip FmtRefines ParseRefines FunctionForm Terminates EmitInv
+  Tiny = FALSE
+INVARIANTS CalendarOk RoundTrip FmtRefines FmtRefinesDone ParseRefines FunctionForm Terminates EmitInv
 CHECK_DEADLOCK FALSE
